@@ -200,14 +200,7 @@ impl ExprReply {
                         literal!("(");
                     }
                     for (i, expr) in exprs.iter().enumerate() {
-                        let signed = i > 0
-                            && matches!(
-                                *expr,
-                                Expr::UnaryOp(crate::ast::UnaryOpExpr {
-                                    op: UnaryOpType::Positive | UnaryOpType::Negative,
-                                    ..
-                                })
-                            );
+                        let signed = i > 0 && expr.starts_with_sign();
                         if signed {
                             literal!("(");
                         }
